@@ -117,6 +117,15 @@ class GhostWork:
         self.node = node
         self.check = CHECK_NAMES[qual]
         self.nsized = N_SIZED[qual]
+        if qual == "ctparse._ctparse":
+            # the names of the two N-sized collections and of the deadline check, by their role (robust against renames)
+            from contracts.toplevel import search_locals
+            nm, _ = search_locals(node)
+            seqs = [t.elts[0].id for st in ast.walk(node) if isinstance(st, ast.Assign) for t in st.targets
+                    if isinstance(t, ast.Tuple) and t.elts and isinstance(t.elts[0], ast.Name)
+                    and any(isinstance(c, ast.Name) and c.id == "_regex_stack" for c in ast.walk(st.value))]
+            self.nsized = tuple(sorted(set(seqs[:1] or ["regex_stack"]) | {nm["stack"]}))
+            self.check = nm["check"]
         self.problems = []
         self.checked_loops = []
 
@@ -233,15 +242,21 @@ class DeadlineUnit:
                "loops over candidate sequences (line, starts with check): %s" % g.checked_loops, "work-growth")
         # the check sites of _ctparse lie inside the try whose handler swallows the timeout and ends the stream
         f = world.func("ctparse._ctparse")
+        # the deadline closure of _ctparse by its role: the name bound to the result of timers.timeout (imported as timeout_)
+        tname = next((st.targets[0].id for st in f.node.body if isinstance(st, ast.Assign) and len(st.targets) == 1
+                      and isinstance(st.targets[0], ast.Name) and isinstance(st.value, ast.Call) and isinstance(st.value.func, ast.Name)
+                      and st.value.func.id in ("timeout_", "timeout")), CHECK_NAMES["ctparse._ctparse"])
+        check_names = dict(CHECK_NAMES)
+        check_names["ctparse._ctparse"] = tname
         tries = [s for s in f.node.body if isinstance(s, ast.Try)]
         calls_outside = []
         for s in f.node.body:
             if isinstance(s, ast.Try):
                 continue
             for x in ast.walk(s):
-                if isinstance(x, ast.Call) and isinstance(x.func, ast.Name) and x.func.id == "t_fun":
+                if isinstance(x, ast.Call) and isinstance(x.func, ast.Name) and x.func.id == tname:
                     calls_outside.append(x.lineno)
-                if isinstance(x, ast.Call) and any(isinstance(a, ast.Name) and a.id == "t_fun" for a in x.args):
+                if isinstance(x, ast.Call) and any(isinstance(a, ast.Name) and a.id == tname for a in x.args):
                     calls_outside.append(x.lineno)
         ok_try = len(tries) == 1 and not calls_outside
         handler_ok = False
@@ -263,7 +278,7 @@ class DeadlineUnit:
         ob("ctparse._ctparse", "timeout-just-ends-the-stream", ok_try and handler_ok, detail, "prefix")
         # results of the check are never used (non-interference => output under a timeout is a prefix)
         used = []
-        for qual, nm in CHECK_NAMES.items():
+        for qual, nm in check_names.items():
             fn = world.func(qual)
             for x in ast.walk(fn.node):
                 if isinstance(x, ast.Call) and isinstance(x.func, ast.Name) and x.func.id == nm:
